@@ -166,7 +166,9 @@ def o_reader(case):
         f2 = framing.build_frame(bytes([n >> 4, (n & 0xF) << 4 | (n % 16)]))
         f3 = framing.frame_with_trailer(bytes([n >> 4, (n & 0xF) << 4]), bytes([n % 256, 0x0D, 0x0A]))
         good += [(n, f2), (n, f3)]
-        stream += f2 + f3
+        # a frame with a one-byte payload (rejected: too short to carry a number) right in front: whatever its checksum
+        # bytes look like, the frames behind it are not touched
+        stream += framing.build_frame(bytes([n % 256])) + f2 + f3
     with diagnostics(bool(case.get("diag"))):
         try:
             got = list(RTCMReader(io.BytesIO(bytes(stream)), quitonerror=case["qoe"]))
